@@ -345,7 +345,7 @@ func genHistory(c *Ctx, maxOps int, twoSessions bool) List {
 }
 
 func genStore(c *Ctx) {
-	run := func(in Sx) { c.Emit(in, runStore(in)) }
+	run := func(in Sx) { c.Pending(in); c.Emit(in, runStore(in)) }
 	// fixed small histories first: the scenarios of internal/testsuite/store_suite.go in this alphabet
 	run(L(Sym("hist"), Bool(true), L(
 		L(Sym("save-incr"), Int(0), Int(1), Str("hello")), L(Sym("save-incr"), Int(0), Int(2), Str("cruel")), L(Sym("save-incr"), Int(0), Int(3), Str("world")),
